@@ -67,4 +67,7 @@ DetQ == {"call", "cores2", "cores2_near", "max"}
 RndQ == {"cores_r2", "cores_n0", "sample"}
 DetT == {"call", "getitem", "cores2", "cores2_near", "cores2_r3", "f1", "f2", "max", "max_min"}
 RndT == {"cores_r2", "cores_r4_near", "cores_n0", "cores_n0_near", "sample"}
+\* teneva.ANOVA_func: lazily computed coefficients (property), cores at several accuracies; no randomness
+DetF == {"coeffs", "cores_e8", "cores_e2", "cores_e12", "cores_e0"}
+RndF == {}
 =============================================================================
